@@ -27,6 +27,7 @@ import (
 	"sort"
 	"strings"
 
+	"github.com/mmcloughlin/avo/build"
 	"github.com/mmcloughlin/avo/gotypes"
 	"github.com/mmcloughlin/avo/reg"
 )
@@ -67,13 +68,13 @@ func c07sanitizeTy(t *c07ty) {
 
 type c07leaf struct {
 	isRet bool
-	vi    int        // variable index
-	path  []c07step  // component path
-	asm   string     // Basic.Addr.Asm() from the implementation
-	size  int        // size of the basic type
-	ptr   string     // for leaves behind a Dereference: address of the pointer to load first
-	goOK  bool       // expressible as a Go expression (no blank field on the way)
-	kind  string     // basic token of the leaf
+	vi    int       // variable index
+	path  []c07step // component path
+	asm   string    // Basic.Addr.Asm() from the implementation
+	size  int       // size of the basic type
+	ptr   string    // for leaves behind a Dereference: address of the pointer to load first
+	goOK  bool      // expressible as a Go expression (no blank field on the way)
+	kind  string    // basic token of the leaf
 }
 
 func c07movFor(size int) string {
@@ -514,11 +515,11 @@ func init() {
 		_ = usesUnsafe
 
 		files := map[string]string{
-			"go.mod":     "module c07gen\n\ngo 1.23\n",
-			"decl.go":    "package main\n\nimport \"unsafe\"\n\nvar _ unsafe.Pointer\n\n" + decl.String(),
-			"f_amd64.s":  asm.String(),
-			"main.go":    c07mainPrelude,
-			"calls.go":   "package main\n\nimport (\n\t\"math\"\n\t\"reflect\"\n\t\"unsafe\"\n)\n\nvar _ = math.Pi\nvar _ unsafe.Pointer\nvar _ reflect.Type\n\n" + calls.String() + "\n" + sizesFn.String(),
+			"go.mod":    "module c07gen\n\ngo 1.23\n",
+			"decl.go":   "package main\n\nimport \"unsafe\"\n\nvar _ unsafe.Pointer\n\n" + decl.String(),
+			"f_amd64.s": asm.String(),
+			"main.go":   c07mainPrelude,
+			"calls.go":  "package main\n\nimport (\n\t\"math\"\n\t\"reflect\"\n\t\"unsafe\"\n)\n\nvar _ = math.Pi\nvar _ unsafe.Pointer\nvar _ reflect.Type\n\n" + calls.String() + "\n" + sizesFn.String(),
 		}
 		for name, content := range files {
 			if err := os.WriteFile(filepath.Join(*dir, name), []byte(content), 0o644); err != nil {
@@ -615,6 +616,11 @@ func init() {
 			stats["exec_pairs_run"] += er[0]
 		}
 		stats["functions"] = len(sigs)
+		// --- packages on disk: Context.Package / Implement / SignatureExpr (and the package-level functions) over
+		// several packages of ONE import path that define the type names of one expression text differently
+		if err := c07xDiskFamilies(g, o, *dir, stats, 3); err != nil {
+			return err
+		}
 		// every scalar leaf must resolve, and the pointer in front of a Dereference too: dropped leaves are a verdict
 		o.emit(fmt.Sprintf("accept-count %d unresolved-leaves", stats["leaf_unresolved"]+stats["leaf_behind_defined_pointer_type"]), "ok")
 		var diag []string
@@ -632,6 +638,124 @@ func init() {
 		}
 		return writeJSON(*f.stats, map[string]any{"counts": stats, "vet_diagnostics": diag, "exec_mismatches": mism})
 	})
+}
+
+// c07xDiskFamilies writes, per family, packages `main` of module example.com/c07fam into separate directories: a
+// (type declarations + body-less func Fn), b (the same text of Fn, the types defined differently), then a again;
+// loads each through the REAL build.Context.Package (packages.Load in that directory), obtains the signature through
+// Implement("Fn") or SignatureExpr(text), and judges it like every generated signature (model + acceptors on the
+// member's own definitions), components selected through build.Param… on that Context.
+func c07xDiskFamilies(g *c07gen, o *out, dir string, stats map[string]int, n int) error {
+	cwd, err := os.Getwd()
+	if err != nil {
+		return err
+	}
+	defer os.Chdir(cwd)
+	e := &c07emitter{o: o, stats: stats}
+	for k := 0; k < n; k++ {
+		var a *c07sig
+		for tries := 0; ; tries++ {
+			a = g.sig()
+			if len(a.decls()) > 0 && !a.usesUnsafe() && len(a.params)+len(a.results) <= 6 {
+				break
+			}
+			if tries > 2000 {
+				return fmt.Errorf("no signature with a named type generated")
+			}
+		}
+		b, memo := a.cloneSig()
+		changed := 0
+		for tries := 0; changed == 0 && tries < 8; tries++ {
+			for _, d := range a.decls() {
+				if g.r.chance(1, 2) && g.redefine(memo[d]) {
+					changed++
+				}
+			}
+		}
+		if changed == 0 || a.src() != b.src() {
+			stats["disk_family_skipped"]++
+			continue
+		}
+		a2, _ := a.cloneSig()
+		dirs := []string{filepath.Join(dir, "fam", itoa(k)+"a"), filepath.Join(dir, "fam", itoa(k)+"b")}
+		for i, m := range []*c07sig{a, b} {
+			if err := os.MkdirAll(dirs[i], 0o755); err != nil {
+				return err
+			}
+			src := c07declSrc("main", m.decls(), false) + "\nfunc Fn" + m.src() + "\n\nfunc main() {}\n"
+			files := map[string]string{"go.mod": "module example.com/c07fam\n\ngo 1.23\n", "decl.go": src, "stub_amd64.s": "// body of Fn\n"}
+			for name, content := range files {
+				if err := os.WriteFile(filepath.Join(dirs[i], name), []byte(content), 0o644); err != nil {
+					return err
+				}
+			}
+		}
+		for i, m := range []*c07sig{a, b, a2} {
+			if err := os.Chdir(dirs[i%2]); err != nil {
+				return err
+			}
+			c := build.NewContext()
+			pkgLevel := g.r.chance(1, 2)
+			implement := g.r.chance(1, 2)
+			func() {
+				defer func() {
+					if r := recover(); r != nil {
+						err = fmt.Errorf("panic: %v", r)
+					}
+				}()
+				if pkgLevel {
+					old := build.VerifSwapContext(c)
+					defer build.VerifSwapContext(old)
+					build.Package(".")
+					if implement {
+						build.Implement("Fn")
+					} else {
+						build.Function("Fn")
+						build.SignatureExpr("func" + m.src())
+					}
+				} else {
+					c.Package(".")
+					if implement {
+						c.Implement("Fn")
+					} else {
+						c.Function("Fn")
+						c.SignatureExpr("func" + m.src())
+					}
+				}
+			}()
+			if err != nil {
+				return err
+			}
+			f, _ := c.Result()
+			route := "disk-signature-expr"
+			if implement {
+				route = "disk-implement"
+			}
+			failed := 0
+			if c.VerifErrCount() != 0 || len(f.Functions()) != 1 {
+				// the package on disk declares everything the text names: a failure is the implementation's
+				failed = 1
+			}
+			o.emit(fmt.Sprintf("accept-count %d %s-of-a-declared-function-failed family=%d member=%d %s", failed, route, k, i,
+				hexs(strings.Join(c.VerifErrMessages(), "; "))), "ok")
+			if failed == 1 {
+				stats["disk_family_members"]++
+				continue
+			}
+			m.real, m.bctx = f.Functions()[0].Signature, c
+			m.route = "disk-signature-expr"
+			if implement {
+				m.route = "disk-implement"
+			}
+			e.emitSig(g, m, false)
+			stats["disk_family_members"]++
+		}
+		stats["disk_families"]++
+		if a.real != nil && b.real != nil && a.real.Bytes() != b.real.Bytes() {
+			stats["disk_family_different_argsize"]++
+		}
+	}
+	return nil
 }
 
 type gotypesVar struct {
